@@ -31,26 +31,25 @@ Lemma length_eqb_nil : forall (A : Type) (l : list A), (length l =? 0)%nat = tru
 Proof. intros A [|a l]; cbn; split; intros H; try reflexivity; discriminate. Qed.
 
 (* the optional SubsUpdate touches neither the file slice nor the topic row *)
-Lemma subs_update_fs_c16b : forall fault s topic uid seq s',
-  subs_update_c16b fault s topic uid seq = Some s' -> sv_fs s' = sv_fs s /\ sv_seq s' = sv_seq s.
+Lemma subs_update_fs_c16b : forall fault s topic uid seq,
+  sv_fs (fst (subs_update_c16b fault s topic uid seq)) = sv_fs s /\
+  sv_seq (fst (subs_update_c16b fault s topic uid seq)) = sv_seq s.
 Proof.
-  intros fault s topic uid seq s' H. unfold subs_update_c16b in H. destruct fault; [discriminate|].
-  inversion H. split; reflexivity.
+  intros fault s topic uid seq. unfold subs_update_c16b. destruct fault; split; reflexivity.
 Qed.
 
-Lemma mark_step_fs_c16b : forall ft rbs m s2,
-  sv_fs (fst (if rbs : bool then
-                if negb (mg_from m =? 0)%N then
-                  match subs_update_c16b (ff_subs ft) s2 (mg_topic m) (mg_from m) (mg_seq m) with
-                  | None => (s2, false)
-                  | Some s3 => (s3, true)
-                  end
-                else (s2, false)
-              else (s2, false))) = sv_fs s2.
+Definition mark_step_c16b (ft : save_faults) (rbs : bool) (m : msg_c16b) (s2 : sstate_c16b) : sstate_c16b * bool :=
+  if rbs then
+    if negb (mg_from m =? 0)%N then
+      (fst (subs_update_c16b (ff_subs ft) s2 (mg_topic m) (mg_from m) (mg_seq m)),
+       negb (snd (subs_update_c16b (ff_subs ft) s2 (mg_topic m) (mg_from m) (mg_seq m))))
+    else (s2, false)
+  else (s2, false).
+
+Lemma mark_step_fs_c16b : forall ft rbs m s2, sv_fs (fst (mark_step_c16b ft rbs m s2)) = sv_fs s2.
 Proof.
-  intros ft rbs m s2. destruct rbs; [|reflexivity]. destruct (negb (mg_from m =? 0)%N); [|reflexivity].
-  destruct (subs_update_c16b (ff_subs ft) s2 (mg_topic m) (mg_from m) (mg_seq m)) as [s3|] eqn:E; [|reflexivity].
-  exact (proj1 (subs_update_fs_c16b _ _ _ _ _ _ E)).
+  intros ft rbs m s2. unfold mark_step_c16b. destruct rbs; [|reflexivity]. destruct (negb (mg_from m =? 0)%N); [|reflexivity].
+  exact (proj1 (subs_update_fs_c16b _ _ _ _ _)).
 Qed.
 
 Lemma publish_nil_c16b : forall f topic,
@@ -73,20 +72,44 @@ Proof. exact publish_nil_c16b. Qed.
 (* FileLinkAttachments right after MessageSave stored the row: the foreign key of the message holds *)
 Lemma file_link_after_msg_c16b : forall fault s3 f topic fids,
   sv_fs s3 = after_msg_c16b f topic ->
-  file_link_msg_c16b fault s3 (next_mid f) fids =
-  if fault then None
-  else if forallb (fun x => memN x (file_ids f)) fids
-       then Some (with_fs_c16b s3
-              {| files := files f; links := links f ++ map (fun x => (x, TMsg (next_mid f))) fids;
-                 msgs := (next_mid f, topic) :: msgs f; next_mid := N.succ (next_mid f);
-                 topics := topics f; users := users f; disk := disk f;
-                 att := att f ++ map (fun x => (x, TMsg (next_mid f))) (filter (fun x => is_done x (files f)) fids) |})
-       else None.
+  sv_fs (fst (file_link_msg_c16b fault s3 (next_mid f) fids)) =
+    (if negb fault && forallb (fun x => memN x (file_ids f)) fids
+     then {| files := files f; links := links f ++ map (fun x => (x, TMsg (next_mid f))) fids;
+             msgs := (next_mid f, topic) :: msgs f; next_mid := N.succ (next_mid f);
+             topics := topics f; users := users f; disk := disk f;
+             att := att f ++ map (fun x => (x, TMsg (next_mid f))) (filter (fun x => is_done x (files f)) fids) |}
+     else after_msg_c16b f topic) /\
+  snd (file_link_msg_c16b fault s3 (next_mid f) fids) = negb (negb fault && forallb (fun x => memN x (file_ids f)) fids).
 Proof.
-  intros fault s3 f topic fids H. unfold file_link_msg_c16b. destruct fault; [reflexivity|].
-  rewrite H. unfold after_msg_c16b at 1. cbn [msgs map fst]. unfold memN at 1. cbn [existsb]. rewrite N.eqb_refl. cbn [orb negb].
-  unfold file_ids. unfold after_msg_c16b. cbn [files links msgs next_mid topics users disk att].
-  destruct (forallb (fun x => memN x (map f_id (files f))) fids); reflexivity.
+  intros fault s3 f topic fids H. unfold file_link_msg_c16b, log_c16b. cbn [sv_fs]. destruct fault; [split; [exact H|reflexivity]|].
+  rewrite H.
+  assert (E1 : memN (next_mid f) (map fst (msgs (after_msg_c16b f topic))) = true).
+  { unfold after_msg_c16b. cbn [msgs map fst]. unfold memN. cbn [existsb]. rewrite N.eqb_refl. reflexivity. }
+  assert (E2 : file_ids (after_msg_c16b f topic) = file_ids f) by reflexivity.
+  rewrite E1, E2. cbn [negb andb].
+  destruct (forallb (fun x => memN x (file_ids f)) fids); split; reflexivity.
+Qed.
+
+Lemma save_unfold_c16b : forall ft handler serve s m urls rbs,
+  save_c16b ft handler serve s m urls rbs =
+  let r1 := topic_update_on_message_c16b (ff_topic ft) s m in
+  if snd r1 then (fst r1, {| sr_err := true; sr_marked := false |})
+  else
+    let r2 := message_save_c16b (ff_msg ft) (fst r1) m in
+    if snd r2 then (fst r2, {| sr_err := true; sr_marked := false |})
+    else
+      let sm := mark_step_c16b ft rbs m (fst r2) in
+      if negb (length urls =? 0)%nat && handler then
+        if negb (length (resolve serve urls) =? 0)%nat then
+          let r4 := file_link_msg_c16b (ff_link ft) (fst sm) (next_mid (sv_fs (fst r1))) (resolve serve urls) in
+          (fst r4, {| sr_err := snd r4; sr_marked := snd sm |})
+        else (fst sm, {| sr_err := false; sr_marked := snd sm |})
+      else (fst sm, {| sr_err := false; sr_marked := snd sm |}).
+Proof.
+  intros ft handler serve s m urls rbs. unfold save_c16b, mark_step_c16b. cbv zeta.
+  destruct (snd (topic_update_on_message_c16b (ff_topic ft) s m)); [reflexivity|].
+  destruct (snd (message_save_c16b (ff_msg ft) _ m)); [reflexivity|].
+  destruct rbs; [|reflexivity]. destruct (negb (mg_from m =? 0)%N); reflexivity.
 Qed.
 
 Lemma save_fs_char : forall ft handler serve s m urls rbs,
@@ -94,17 +117,16 @@ Lemma save_fs_char : forall ft handler serve s m urls rbs,
   let q := save_fs_c16b ft handler serve (sv_fs s) (mg_topic m) urls in
   sv_fs (fst r) = fst q /\ sr_err (snd r) = snd q.
 Proof.
-  intros ft handler serve s m urls rbs. cbv zeta.
-  unfold save_c16b, save_fs_c16b, topic_update_on_message_c16b.
-  destruct (ff_topic ft); [split; reflexivity|].
-  unfold message_save_c16b. cbn [sv_fs].
+  intros ft handler serve s m urls rbs. cbv zeta. rewrite save_unfold_c16b. cbv zeta.
+  unfold save_fs_c16b, topic_update_on_message_c16b, log_c16b.
+  destruct (ff_topic ft); [split; reflexivity|]. cbn [fst snd].
+  unfold message_save_c16b, log_c16b. cbn [sv_fs].
   destruct (ff_msg ft); [split; reflexivity|]. cbn [orb].
-  destruct (memN (mg_topic m) (topics (sv_fs s))) eqn:Ht; cbn [negb]; [|split; reflexivity].
-  fold (after_msg_c16b (sv_fs s) (mg_topic m)).
-  match goal with |- context [fst ?X] => match X with (if rbs then _ else _) => set (sm := X) end end.
+  destruct (memN (mg_topic m) (topics (sv_fs s))) eqn:Ht; cbn [negb fst snd]; [|split; reflexivity].
+  match goal with |- context [mark_step_c16b ft rbs m ?X] => remember (mark_step_c16b ft rbs m X) as sm eqn:Esm end.
   assert (Hsm : sv_fs (fst sm) = after_msg_c16b (sv_fs s) (mg_topic m)).
   { subst sm. rewrite mark_step_fs_c16b. reflexivity. }
-  clearbody sm.
+  clear Esm.
   unfold save_fids_c16b.
   destruct urls as [|u0 urls'].
   - cbn [length Nat.eqb negb andb]. replace (if handler then resolve serve [] else []) with (@nil N) by (destruct handler; reflexivity).
@@ -112,15 +134,14 @@ Proof.
   - cbn [length Nat.eqb negb andb]. destruct handler.
     + destruct (resolve serve (u0 :: urls')) as [|a fids'] eqn:Er.
       * cbn [length Nat.eqb negb]. cbn [fst snd sr_err]. rewrite Hsm. rewrite publish_nil_after_c16b by exact Ht. split; reflexivity.
-      * cbn [length Nat.eqb negb].
-        rewrite (file_link_after_msg_c16b (ff_link ft) (fst sm) (sv_fs s) (mg_topic m) (a :: fids') Hsm).
-        destruct (ff_link ft).
-        { cbn [fst snd sr_err]. rewrite Hsm. rewrite publish_nil_after_c16b by exact Ht. split; reflexivity. }
-        destruct (forallb (fun x => memN x (file_ids (sv_fs s))) (a :: fids')) eqn:Eall; cbn [negb].
-        { cbn [fst snd sr_err with_fs_c16b sv_fs]. split; [|reflexivity].
-          cbn [step]. rewrite Ht. cbv zeta. rewrite Eall. reflexivity. }
-        { cbn [fst snd sr_err]. rewrite Hsm. split; [|reflexivity].
-          cbn [step]. rewrite Ht. cbv zeta. rewrite Eall. rewrite !app_nil_r. reflexivity. }
+      * cbn [length Nat.eqb negb]. cbn [fst snd sr_err].
+        destruct (file_link_after_msg_c16b (ff_link ft) (fst sm) (sv_fs s) (mg_topic m) (a :: fids') Hsm) as [L1 L2].
+        rewrite L1, L2.
+        destruct (ff_link ft); cbn [negb andb].
+        { rewrite publish_nil_after_c16b by exact Ht. split; reflexivity. }
+        destruct (forallb (fun x => memN x (file_ids (sv_fs s))) (a :: fids')) eqn:Eall; cbn [negb fst snd].
+        { split; [|reflexivity]. cbn [step]. rewrite Ht. cbv zeta. rewrite Eall. reflexivity. }
+        { split; [|reflexivity]. cbn [step]. rewrite Ht. cbv zeta. rewrite Eall. rewrite !app_nil_r. reflexivity. }
     + cbn [fst snd sr_err]. rewrite Hsm. rewrite publish_nil_after_c16b by exact Ht. split; reflexivity.
 Qed.
 
@@ -218,16 +239,21 @@ Lemma save_marked_iff : forall ft handler serve s m urls rbs,
   ff_topic ft = false -> ff_msg ft = false -> memN (mg_topic m) (topics (sv_fs s)) = true ->
   sr_marked (snd (save_c16b ft handler serve s m urls rbs)) = rbs && negb (mg_from m =? 0)%N && negb (ff_subs ft).
 Proof.
-  intros ft handler serve s m urls rbs H1 H2 Ht.
-  unfold save_c16b, topic_update_on_message_c16b, message_save_c16b. rewrite H1, H2. cbn [sv_fs]. rewrite Ht. cbn [negb].
-  match goal with |- context [snd ?X] => match X with (if rbs then _ else _) => set (sm := X) end end.
+  intros ft handler serve s m urls rbs H1 H2 Ht. rewrite save_unfold_c16b. cbv zeta.
+  unfold topic_update_on_message_c16b, message_save_c16b, log_c16b. rewrite H1, H2. cbn [fst snd sv_fs]. rewrite Ht. cbn [negb fst snd].
+  match goal with |- context [mark_step_c16b ft rbs m ?X] => set (sm := mark_step_c16b ft rbs m X) end.
   assert (Hm : snd sm = rbs && negb (mg_from m =? 0)%N && negb (ff_subs ft)).
-  { subst sm. destruct rbs; [|reflexivity]. destruct (negb (mg_from m =? 0)%N); [|reflexivity].
+  { subst sm. unfold mark_step_c16b. destruct rbs; [|reflexivity]. destruct (negb (mg_from m =? 0)%N); [|reflexivity].
     unfold subs_update_c16b. destruct (ff_subs ft); reflexivity. }
   clearbody sm.
   destruct (negb (length urls =? 0)%nat && handler); [|exact Hm].
-  destruct (negb (length (resolve serve urls) =? 0)%nat); [|exact Hm].
-  destruct (file_link_msg_c16b (ff_link ft) (fst sm) _ (resolve serve urls)); exact Hm.
+  destruct (negb (length (resolve serve urls) =? 0)%nat); exact Hm.
+Qed.
+
+Lemma file_link_subs_c16b : forall fault s mid fids, sv_subs (fst (file_link_msg_c16b fault s mid fids)) = sv_subs s.
+Proof.
+  intros fault s mid fids. unfold file_link_msg_c16b, log_c16b. destruct fault; [reflexivity|]. cbn [sv_fs].
+  destruct (negb (memN mid _)); [reflexivity|]. destruct (negb (forallb _ fids)); reflexivity.
 Qed.
 
 (* SubsUpdate is never called for a sender that does not read the topic, and never with the zero uid
@@ -236,23 +262,69 @@ Lemma save_subs_untouched : forall ft handler serve s m urls rbs,
   rbs = false \/ mg_from m = 0%N ->
   sv_subs (fst (save_c16b ft handler serve s m urls rbs)) = sv_subs s.
 Proof.
-  intros ft handler serve s m urls rbs H.
-  unfold save_c16b, topic_update_on_message_c16b, message_save_c16b.
-  destruct (ff_topic ft); [reflexivity|]. cbn [sv_fs]. destruct (ff_msg ft); [reflexivity|].
-  destruct (memN (mg_topic m) (topics (sv_fs s))); cbn [negb]; [|reflexivity].
-  match goal with |- context [fst ?X] => match X with (if rbs then _ else _) => set (sm := X) end end.
+  intros ft handler serve s m urls rbs H. rewrite save_unfold_c16b. cbv zeta.
+  unfold topic_update_on_message_c16b, message_save_c16b, log_c16b.
+  destruct (ff_topic ft); [reflexivity|]. cbn [fst snd sv_fs]. destruct (ff_msg ft); [reflexivity|].
+  destruct (memN (mg_topic m) (topics (sv_fs s))); cbn [negb fst snd]; [|reflexivity].
+  match goal with |- context [mark_step_c16b ft rbs m ?X] => set (sm := mark_step_c16b ft rbs m X) end.
   assert (Hm : sv_subs (fst sm) = sv_subs s).
-  { subst sm. destruct H as [H|H]; [rewrite H; reflexivity|]. rewrite H. cbn [N.eqb negb]. destruct rbs; reflexivity. }
+  { subst sm. unfold mark_step_c16b. destruct H as [H|H]; [rewrite H; reflexivity|]. rewrite H. cbn [N.eqb negb]. destruct rbs; reflexivity. }
   clearbody sm.
   destruct (negb (length urls =? 0)%nat && handler); [|exact Hm].
   destruct (negb (length (resolve serve urls) =? 0)%nat); [|exact Hm].
-  unfold file_link_msg_c16b. destruct (ff_link ft); [exact Hm|].
-  destruct (negb (memN _ _)); [exact Hm|]. destruct (negb (forallb _ _)); exact Hm.
+  cbn [fst]. rewrite file_link_subs_c16b. exact Hm.
+Qed.
+
+(* ---- the adapter calls Save makes, in order (the ghost log) ---- *)
+Definition save_calls_c16b (ft : save_faults) (handler : bool) (serve : list N) (f : state) (m : msg_c16b)
+    (urls : list (list N)) (rbs : bool) : list (call_c16b * bool) :=
+  (CTopicUpdateOnMessage, ff_topic ft) ::
+  if ff_topic ft then []
+  else (CMessageSave, ff_msg ft) ::
+    if ff_msg ft || negb (memN (mg_topic m) (topics f)) then []
+    else (if rbs && negb (mg_from m =? 0)%N then [(CSubsUpdate, ff_subs ft)] else []) ++
+         (match save_fids_c16b handler serve urls with
+          | [] => []
+          | _ :: _ => [(CFileLinkAttachments, ff_link ft)]
+          end).
+
+Lemma save_calls_char : forall ft handler serve s m urls rbs,
+  sv_calls (fst (save_c16b ft handler serve s m urls rbs)) =
+  sv_calls s ++ save_calls_c16b ft handler serve (sv_fs s) m urls rbs.
+Proof.
+  intros ft handler serve s m urls rbs. rewrite save_unfold_c16b. cbv zeta.
+  unfold save_calls_c16b, topic_update_on_message_c16b, message_save_c16b, log_c16b.
+  destruct (ff_topic ft); [reflexivity|]. cbn [fst snd sv_fs sv_calls]. destruct (ff_msg ft); cbn [orb].
+  { cbn [fst sv_calls]. rewrite <- app_assoc. reflexivity. }
+  destruct (memN (mg_topic m) (topics (sv_fs s))); cbn [negb fst snd].
+  2:{ cbn [sv_calls]. rewrite <- app_assoc. reflexivity. }
+  match goal with |- context [mark_step_c16b ft rbs m ?X] => set (s2 := X) end.
+  assert (Hs2 : sv_calls s2 = sv_calls s ++ [(CTopicUpdateOnMessage, false); (CMessageSave, false)]).
+  { subst s2. unfold with_fs_c16b. cbn [sv_calls]. rewrite <- app_assoc. reflexivity. }
+  assert (Hm : sv_calls (fst (mark_step_c16b ft rbs m s2)) =
+               sv_calls s2 ++ (if rbs && negb (mg_from m =? 0)%N then [(CSubsUpdate, ff_subs ft)] else [])).
+  { unfold mark_step_c16b. destruct rbs; cbn [andb]; [|symmetry; apply app_nil_r].
+    destruct (negb (mg_from m =? 0)%N); [|symmetry; apply app_nil_r].
+    unfold subs_update_c16b, log_c16b. destruct (ff_subs ft); reflexivity. }
+  set (sm := mark_step_c16b ft rbs m s2) in *. clearbody sm. clearbody s2.
+  assert (Hl : forall mid fids, sv_calls (fst (file_link_msg_c16b (ff_link ft) (fst sm) mid fids)) =
+                                sv_calls (fst sm) ++ [(CFileLinkAttachments, ff_link ft)]).
+  { intros mid fids. unfold file_link_msg_c16b, log_c16b. destruct (ff_link ft); [reflexivity|]. cbn [sv_fs].
+    destruct (negb (memN mid _)); [reflexivity|]. destruct (negb (forallb _ fids)); reflexivity. }
+  unfold save_fids_c16b.
+  destruct urls as [|u0 urls'].
+  - cbn [length Nat.eqb negb andb fst]. replace (if handler then resolve serve [] else []) with (@nil N) by (destruct handler; reflexivity).
+    rewrite Hm, Hs2. rewrite app_nil_r. rewrite <- !app_assoc. reflexivity.
+  - cbn [length Nat.eqb negb andb]. destruct handler.
+    + destruct (resolve serve (u0 :: urls')) as [|a fids'] eqn:Er; cbn [length Nat.eqb negb fst].
+      * rewrite Hm, Hs2. rewrite app_nil_r. rewrite <- !app_assoc. reflexivity.
+      * rewrite Hl, Hm, Hs2. rewrite <- !app_assoc. reflexivity.
+    + cbn [fst]. rewrite Hm, Hs2. rewrite app_nil_r. rewrite <- !app_assoc. reflexivity.
 Qed.
 
 (* ---- over all histories: end to end from the URLs of the request ---- *)
-Lemma save_listed_url_linked : forall h1 ft serve sq sb m urls rbs h2 url,
-  let s := {| sv_fs := run h1; sv_seq := sq; sv_subs := sb |} in
+Lemma save_listed_url_linked : forall h1 ft serve sq sb cl m urls rbs h2 url,
+  let s := {| sv_fs := run h1; sv_seq := sq; sv_subs := sb; sv_calls := cl |} in
   let r := save_c16b ft true serve s m urls rbs in
   sr_err (snd r) = false ->
   In url urls -> is_done (get_id_from_url serve url) (files (run h1)) = true ->
@@ -263,7 +335,7 @@ Lemma save_listed_url_linked : forall h1 ft serve sq sb m urls rbs h2 url,
   In (f, TMsg mid) (links s2) /\ In f (file_ids s2) /\ In f (disk s2) /\
   exists g, download s2 serve url = Some g /\ f_id g = f /\ f_done g = true.
 Proof.
-  intros h1 ft serve sq sb m urls rbs h2 url s r Herr Hin Hd mid s2 Hl.
+  intros h1 ft serve sq sb cl m urls rbs h2 url s r Herr Hin Hd mid s2 Hl.
   destruct (save_accepted_fs ft serve s m urls rbs Herr) as [Ht [Hall Hfs]]. fold r in Hfs.
   assert (Hs2 : s2 = run (h1 ++ OPublish (mg_topic m) (resolve serve urls) :: h2)).
   { subst s2. rewrite Hfs. rewrite run_app. reflexivity. }
